@@ -65,6 +65,10 @@ def _run_task(task):
         topts = opts.pop(tier, {})
         opts = {k: v for k, v in opts.items() if k not in ("quick", "thorough", "optional_clauses", "replay_fn")}
         opts.update(topts)
+        if tier == "thorough":
+            # thorough tier: exploration budgets are sized for completion (an exhausted budget is inconclusive, never a pass)
+            opts["max_paths"] = max(opts.get("max_paths", 0), 3_000_000)
+            opts["timeout_s"] = max(opts.get("timeout_s", 0), 5400)
         opts.update(override)
         r = explore(label, fn, allowed_exc=lm.raises, seed=seed, known=known, **opts)
         # vacuity guard: every clause named literally in the harness must have been reached on some path
